@@ -511,6 +511,7 @@ class Reassembler(object):
     def __init__(self):
         self._reset()
         self.messages = []
+        self.problems = []
 
     def _reset(self):
         self.cmd = []
